@@ -521,7 +521,30 @@ pub fn replay_json(v: &Value) -> Result<(), String> {
     }
 }
 
+/// Length 15 is the over-range vector: values at and beyond full scale,
+/// infinities, NaN. PCM16 quantisation saturates.
+const AU_OVER: [f32; 15] = [
+    1.0,
+    -1.0,
+    1.00004,
+    -1.00004,
+    1.5,
+    -1.5,
+    2.0,
+    -2.0,
+    1e9,
+    -1e9,
+    f32::INFINITY,
+    f32::NEG_INFINITY,
+    f32::MAX,
+    f32::NAN,
+    0.0,
+];
+
 fn au_data(n: usize) -> Vec<f32> {
+    if n == AU_OVER.len() {
+        return AU_OVER.to_vec();
+    }
     (0..n).map(|i| ((i as f32 * 0.37).sin() * 0.99) * if i % 7 == 0 { 1.0 } else { 0.5 }).collect()
 }
 
@@ -608,7 +631,7 @@ pub fn run(tier: &str, shard: Option<&str>) -> Report {
             }
             v
         };
-        for n in [0usize, 1, 2, 5, 1023, 1024, 1025, 2047, 2048, 2049, 5000] {
+        for n in [0usize, 1, 2, 5, 15, 1023, 1024, 1025, 2047, 2048, 2049, 5000] {
             for o in &orders {
                 if !thorough && n > 5 && o != &[0, 1, 2, 3] && o != &[3, 2, 1, 0] {
                     continue;
